@@ -142,3 +142,34 @@ def declare(reg, eng):
                  loops={"dependency#2": {"no_break": True,
                                        "body_post": [("C07", "effect('call_soon') and bm_self(effect_arg('call_soon', 1)) is dependency")]}})
     reg.contracts["experiment.current"]["effect"] = "experiment.current"
+
+    # ------------------------------------------------------------------ experiment.wait (awaitcompletion), Scheduler.submit
+    eng.load("experiment.wait.awaitcompletion", "scheduler/base.py", qualname="experiment.wait.awaitcompletion")
+    reg.classes["Job"]["fields"].update({"stderr": "Path"})
+    reg.contract("experiment.wait.awaitcompletion", params=[], closure={"self": "experiment"}, awaits=True, no_replay=True,
+                 requires=["isint(self.unfinishedJobs)", "isint(self.taskOutputQueueSize)"],
+                 # returns only once every registered job is final (or the experiment was asked to stop) and nothing failed
+                 ensures=[(("C06", "C07"), "self.exitMode or (self.unfinishedJobs == 0 and self.taskOutputQueueSize == 0)"),
+                          ("C07", "length(self.failedJobs) == 0")],
+                 raises={"FailedExperiment": {"when": [("C07", "length(self.failedJobs) > 0"),
+                                                       ("C06", "self.exitMode or (self.unfinishedJobs == 0 and self.taskOutputQueueSize == 0)")]},
+                         "AssertionError": {"when": ["isnone(self.central)"]}},
+                 interference={"shared": ["unfinishedJobs", "taskOutputQueueSize", "exitMode", "failure_status", "state"], "rely": [], "guarantee": []},
+                 modifies=None)
+
+    eng.load("Scheduler.submit", "scheduler/base.py")
+    reg.klass("Future", [], {"value": None})
+    reg.contract("asyncio.run_coroutine_threadsafe", params=["coro", "loop"], fresh="Future", returns="Future", modifies=[],
+                 ensures=["result.value is coro"])       # the coroutine call is evaluated through its contract (its effects are those of the scheduled run)
+    reg.contract("Future.result", params=["self"], types={"self": "Future"}, modifies=[], ensures=["result is self.value"])
+    reg.contracts["Scheduler.aio_submit"]["effect"] = "aio_submit"
+    reg.contracts["Scheduler.aio_registerJob"]["effect"] = "registerJob"
+    reg.contracts["Scheduler.aio_registerJob"]["returns"] = "opt:Job"
+    reg.contract("Scheduler.submit", params=["self", "job"], types={"self": "Scheduler", "job": "Job"}, returns="opt:Job", no_replay=True,
+                 requires=["isint(self.xp.unfinishedJobs)", "self.exitmode == False", "isstr(job.identifier)", "not isnone(self.xp.central)",
+                           "job.state == JobState.UNSCHEDULED"],
+                 ensures=[("C05", "effect_count('registerJob') == 1"),
+                          ("C05", "implies(not isnone(result), no_effect('aio_submit') and result is effect_result('registerJob'))"),
+                          ("C05", "implies(isnone(result), effect_count('aio_submit') == 1 and isnone(effect_result('registerJob')))")],
+                 raises={"AssertionError": {"when": []}, "Exception": {"when": []}},
+                 modifies=None)
